@@ -106,7 +106,9 @@ class Trajectory(PymatgenTrajectory):
         See [GEMDAT#103](https://github.com/GEMDAT-repos/GEMDAT/issues/103)
         """
         super().to_positions()
-        self.coords = np.mod(self.coords, 1)
+        # np.mod rounds tiny negative values (> -2**-54) up to exactly 1.0, which is
+        # outside the half-open unit cell; the second np.mod maps that 1.0 to 0.0.
+        self.coords = np.mod(np.mod(self.coords, 1), 1)
 
     def to_volume(self, resolution: float = 0.2) -> Volume:
         """Calculate density volume from a trajectory.
